@@ -25,6 +25,14 @@ if os.path.exists(p):
         if r.get("seeds"):
             yes += f" ({len(r.get('caught_on_seeds', []))}/{len(r['seeds'])} seeds)"
         out.append(f"| `{r['commit']}` | {r['check']} | {yes} | {w} |")
+p = os.path.join(V, "selftest", "last_mutants.json")
+if os.path.exists(p):
+    out.append("\nHand-written patches that re-express a reversion which no longer applies textually (selftest/mutants/, "
+               "`selftest/run.py mutants`):\n")
+    out.append("| patch | check | caught | first witness line |\n|---|---|---|---|")
+    for r in json.load(open(p)):
+        w = (r["first"][0] if r["first"] else "").split("#", 1)[-1].strip()[:140]
+        out.append(f"| `{r['mutant']}` | {r['check']} | {'yes' if r['caught'] else '**no**'} | {w} |")
 p = os.path.join(V, "selftest", "last_seeded.json")
 if os.path.exists(p):
     res = {r["seeded"]: r for r in json.load(open(p))}
